@@ -34,6 +34,14 @@ def run(ctx: Ctx):
     ctx.attempt(gained_equals_stored, ctx)
     ctx.attempt(dispensed_keys, ctx)
     ctx.attempt(rules.rule_initial_tallies, ctx, "D6", {"Vehicle": ["energy_gained", "balance"], "Station": ["energy_dispensed", "balance"]})
+    # energy is GAINED only by charging: the tally the stations' dispensed energy is compared with has the two add_energy implementations as
+    # its only bookers (energy recovered while driving, booked as gained, has no station on the other side of the ledger)
+    def _adders(s_):
+        f = s_.func
+        if f is not None and f.relpath in ("nrel/hive/model/vehicle/mechatronics/bev.py", "nrel/hive/model/vehicle/mechatronics/ice.py") and f.name == "add_energy":
+            return "add_energy (charging)"
+        return None
+    ctx.attempt(rules.rule_callers, ctx, "D6", "tick_energy_gained", _adders, "energy_gained is booked only by add_energy, i.e. only while charging at a station", 2)
     ctx.floor("DU.same-value", 3)
     ctx.floor("DU.setter", 4)
     ctx.floor("WMC", 8)
